@@ -473,3 +473,160 @@ pub fn record_len(path: &str, seed: u64, n: usize, rep: &mut Report) {
     out.flush().unwrap();
     rep.counters.insert("traces".into(), rep.behaviours);
 }
+
+// ------------------------------------------------------------------------------------------
+// Min / Max histories for Trace_MinMax.tla
+// ------------------------------------------------------------------------------------------
+
+const TRACE_INF: i64 = 1 << 30;
+
+/// (value fed to the code, logged integer, logged NaN flag)
+fn mm_value(rng: &mut Xoshiro256PlusPlus, regime: usize) -> (f64, i64, bool) {
+    let c = rng.random_range(0..100);
+    if c < 6 {
+        return (f64::NAN, 0, true);
+    }
+    if c < 8 {
+        return (f64::INFINITY, TRACE_INF, false);
+    }
+    if c < 10 {
+        return (f64::NEG_INFINITY, -TRACE_INF, false);
+    }
+    if c < 13 {
+        return (-0.0, 0, false);
+    }
+    let v: i64 = match regime % 4 {
+        0 => rng.random_range(-3..=3),                   // ties everywhere
+        1 => rng.random_range(-1_000_000..=1_000_000),   // spread out
+        2 => -(rng.random_range(0..=1000) as i64),       // all non-positive (the sign corner of max)
+        _ => rng.random_range(1..=1000),                 // all positive (the sign corner of min)
+    };
+    (v as f64, v, false)
+}
+
+fn mm_log(x: f64) -> serde_json::Value {
+    // what the real object reports, as the integer the trace specification compares: +-inf are
+    // +-2^30, every finite value fed is an integer; anything else (NaN, a fraction) is logged as
+    // a string no specification value equals
+    if x == f64::INFINITY {
+        json!(TRACE_INF)
+    } else if x == f64::NEG_INFINITY {
+        json!(-TRACE_INF)
+    } else if x.is_finite() && x == x.trunc() && x.abs() < 1e9 {
+        json!(x as i64)
+    } else {
+        json!(format!("{:?}", x))
+    }
+}
+
+pub fn record_minmax(path: &str, seed: u64, n: usize, rep: &mut Report) {
+    use average::{Max, Merge, Min};
+    let mut rng = Xoshiro256PlusPlus::seed_from_u64(seed);
+    let mut out = std::io::BufWriter::new(std::fs::File::create(path).unwrap());
+    let k = 6usize;
+    for regime in 0..8usize {
+        writeln!(out, "{}", json!({"op": "restart", "regime": regime})).unwrap();
+        rep.behaviours += 1;
+        rep.nontrivial.insert(hash_str(&format!("minmax{}{}", regime, n)));
+        let mut objs: Vec<Option<(Min, Max)>> = (0..k).map(|_| None).collect();
+        let mut events = 0;
+        while events < n {
+            let i = rng.random_range(0..k);
+            let c = rng.random_range(0..100);
+            events += 1;
+            rep.evaluations += 2;
+            let r = std::panic::catch_unwind(std::panic::AssertUnwindSafe(|| {
+                let mut line = None;
+                if objs[i].is_none() || c < 6 {
+                    let o = if c % 2 == 0 { (Min::new(), Max::new()) } else { (Min::default(), Max::default()) };
+                    line = Some(json!({"op": "new", "id": i, "mn": mm_log(o.0.min()), "mx": mm_log(o.1.max())}));
+                    objs[i] = Some(o);
+                } else if c < 10 {
+                    let (x, r, nan) = mm_value(&mut rng, regime);
+                    if !nan {
+                        let o = (Min::from_value(x), Max::from_value(x));
+                        line = Some(json!({"op": "from", "id": i, "r": r, "mn": mm_log(o.0.min()), "mx": mm_log(o.1.max())}));
+                        objs[i] = Some(o);
+                    }
+                } else if c < 50 {
+                    let (x, r, nan) = mm_value(&mut rng, regime);
+                    let o = objs[i].as_mut().unwrap();
+                    o.0.add(x);
+                    o.1.add(x);
+                    line = Some(json!({"op": "add", "id": i, "nan": nan, "r": r, "mn": mm_log(o.0.min()), "mx": mm_log(o.1.max())}));
+                } else if c < 62 {
+                    // a batch through FromIterator (fresh) or Extend (Min; Max has no Extend impl,
+                    // its batch goes through add)
+                    let len = rng.random_range(0..8);
+                    let vals: Vec<(f64, i64, bool)> = (0..len).map(|_| mm_value(&mut rng, regime)).collect();
+                    let xs: Vec<f64> = vals.iter().map(|v| v.0).collect();
+                    let fresh = c % 2 == 0;
+                    let by_ref = c % 3 == 0;
+                    let o = if fresh {
+                        if by_ref {
+                            (xs.iter().collect::<Min>(), xs.iter().collect::<Max>())
+                        } else {
+                            (xs.iter().copied().collect::<Min>(), xs.iter().copied().collect::<Max>())
+                        }
+                    } else {
+                        let mut o = objs[i].clone().unwrap();
+                        if by_ref {
+                            o.0.extend(xs.iter());
+                        } else {
+                            o.0.extend(xs.iter().copied());
+                        }
+                        for &x in &xs {
+                            o.1.add(x);
+                        }
+                        o
+                    };
+                    let lx: Vec<serde_json::Value> = vals.iter().map(|v| json!({"nan": v.2, "r": v.1})).collect();
+                    line = Some(json!({"op": "batch", "id": i, "fresh": fresh, "xs": lx, "mn": mm_log(o.0.min()), "mx": mm_log(o.1.max())}));
+                    objs[i] = Some(o);
+                } else if c < 82 {
+                    let j = rng.random_range(0..k);
+                    if j != i && objs[j].is_some() {
+                        let src = objs[j].clone().unwrap();
+                        {
+                            let o = objs[i].as_mut().unwrap();
+                            let s = objs_ref(&src);
+                            o.0.merge(&s.0);
+                            o.1.merge(&s.1);
+                        }
+                        let o = objs[i].as_ref().unwrap();
+                        line = Some(json!({"op": "merge", "dst": i, "src": j, "mn": mm_log(o.0.min()), "mx": mm_log(o.1.max()),
+                                           "smn": mm_log(src.0.min()), "smx": mm_log(src.1.max())}));
+                    }
+                } else if c < 92 {
+                    let j = rng.random_range(0..k);
+                    if j != i && objs[j].is_some() {
+                        objs[i] = objs[j].clone();
+                        let o = objs[i].as_ref().unwrap();
+                        line = Some(json!({"op": "clone", "dst": i, "src": j, "mn": mm_log(o.0.min()), "mx": mm_log(o.1.max())}));
+                    }
+                } else {
+                    // JSON cannot carry +-inf: round trip only objects with finite fields
+                    let o = objs[i].as_ref().unwrap();
+                    if o.0.min().is_finite() && o.1.max().is_finite() {
+                        let rm: Min = serde_json::from_str(&serde_json::to_string(&o.0).unwrap()).unwrap();
+                        let rx: Max = serde_json::from_str(&serde_json::to_string(&o.1).unwrap()).unwrap();
+                        line = Some(json!({"op": "serde", "id": i, "mn": mm_log(rm.min()), "mx": mm_log(rx.max())}));
+                        objs[i] = Some((rm, rx));
+                    }
+                }
+                line
+            }));
+            match r {
+                Ok(Some(line)) => writeln!(out, "{}", line).unwrap(),
+                Ok(None) => events -= 1,
+                Err(_) => {
+                    writeln!(out, "{}", json!({"op": "panic", "id": i})).unwrap();
+                    objs[i] = None;
+                }
+            }
+        }
+    }
+    rep.sample(json!({"family": "minmax-trace", "regimes": 8, "events_per_regime": n}));
+    out.flush().unwrap();
+    rep.counters.insert("traces".into(), rep.behaviours);
+}
